@@ -288,6 +288,18 @@ func work(ctx *runner.Ctx) {
 			cases = append(cases, cs{Src: wide, G: "5", E: e, OT: o, Regime: "all", Seed: seed})
 		}
 	}
+	// (d') inputs handed over as NEGATIVE integers (what IOArg.Parse returns for "-5"): two's complement on the wires
+	signedProg := "package main\nfunc main(a int9, b int9) (int9, bool, int9) {\n\tif a > b {\n\t\treturn a - b, true, a\n\t}\n\treturn b - a, false, b\n}\n"
+	for _, g := range []string{"-1", "-256", "-5", "7"} {
+		for _, e := range []string{"-1", "-256", "-77", "255"} {
+			for oi, o := range []string{"ideal", "co", "cot", "cot-mal", "rsa"} {
+				if quick && (oi > 2 || o == "rsa") && !(g == "-5" && e == "-77") {
+					continue
+				}
+				cases = append(cases, cs{Src: signedProg, G: g, E: e, OT: o, Regime: "all", Seed: seed})
+			}
+		}
+	}
 	// (e) transport fragmentation: constant chunks and a single cut at EVERY byte offset of the transcript
 	frag := []cs{
 		{Circ: &circgen.Desc{In: []int{2, 3}, Out: []int{1, 2}, Gates: []circgen.G{{2, 0, 2}, {3, 1, 3}, {4, 4, 0}, {0, 5, 6}, {1, 7, 4}, {2, 8, 1}}}, G: "2", E: "5"},
